@@ -462,4 +462,56 @@ theorem rNextBwd : RNextBwdSpec := by
   intro j s hs hp hcb hwf hb
   exact rb_next_out hs hp hcb hwf hb
 
+/-- draining the ranged iterator backward delivers the admitted records at or before its position, in reverse -/
+theorem rb_drain_eq (j : Journal) (s : RIt) (n : Nat) (hs : Sorted j) (hp : PosIds j) (hcb : bw_ChunkBound j)
+    (hwf : RWF j s) (hb : s.bkwd = true) :
+    rDrain j n s = (((wflat j).take (wbCount j s)).reverse).take n := by
+  induction n generalizing s with
+  | zero => simp [rDrain]
+  | succ n ih =>
+    have g := rb_get_out hs hp hcb hwf hb
+    have hle := rw_wbCount_le j s
+    rw [rDrain]
+    generalize wbCount j s = b at g hle ⊢
+    generalize rGet j s = res at g ⊢
+    obtain ⟨s', r⟩ := res
+    unfold GetOutB at g
+    obtain ⟨g1, g2, g3, g4, _, _⟩ := g
+    simp only at g1 g2 g3 g4
+    cases r with
+    | none =>
+      simp only
+      have hb0 : b = 0 := by
+        by_cases h0 : b = 0
+        · exact h0
+        · rw [if_neg h0] at g1
+          have : b - 1 < (wflat j).length := by omega
+          rw [List.getElem?_eq_getElem this] at g1; cases g1
+      subst hb0; simp
+    | some l =>
+      simp only
+      have hpos : 0 < b := by
+        by_cases h0 : b = 0
+        · rw [if_pos h0] at g1; cases g1
+        · omega
+      rw [if_neg (by omega)] at g1
+      obtain ⟨n1, n2, n3⟩ := rb_next_out hs hp hcb g2 g3
+      rw [ih (rNext j s') n1 n2, n3, g4]
+      obtain ⟨b', rfl⟩ : ∃ b', b = b' + 1 := ⟨b - 1, by omega⟩
+      simp only [Nat.add_sub_cancel] at g1 ⊢
+      have ht : (wflat j).take (b' + 1) = (wflat j).take b' ++ [l] := by
+        rw [List.take_succ (l := wflat j), ← g1]; rfl
+      rw [ht]; simp
+
+theorem rb_spec_drain_bwd (j : Journal) (s : RIt) (n : Nat) (hs : Sorted j) (hp : PosIds j) (hcb : bw_ChunkBound j)
+    (h : rwfB j s = true) (hb : s.bkwd = true) (hn : (wflat j).length ≤ n) : rDrain j n s = rSpecDrain j s := by
+  rw [rb_drain_eq j s n hs hp hcb (rf_rwfB_sound h) hb]
+  have e : rSpecDrain j s = ((wflat j).take (wbCount j s)).reverse := by
+    unfold rSpecDrain wbCount
+    rw [hb]; simp only [if_true]
+    cases s.ci <;> rfl
+  rw [e]
+  apply List.take_of_length_le
+  simp only [List.length_reverse, List.length_take]; omega
+
 end Logrange.Rd
